@@ -12,7 +12,25 @@ def topics_nontrivial(case, impl):
     # non-trivial: some Subscribers / Retained query returned a non-empty result
     return any(len(t.split()) > 1 and t.split()[0] == '0' for t in impl.split('|'))
 
+def ackq_nontrivial(case, impl):
+    # non-trivial: some Acked() call handed at least one entry back
+    for c, o in zip(case.split('|')[1:], impl.split('|')):
+        if c.split() == ['3'] and o.split()[:1] not in ([], ['0']):
+            return True
+    return False
+
 PROPS = {
+    'C13': dict(
+        coq='Properties/C13.v',
+        drivers=[dict(name='ackqdrv', nontrivial=ackq_nontrivial,
+                      env=dict(quick=dict(VERIF_ACKQ_N='300', VERIF_ACKQ_DEPTH='4'),
+                               thorough=dict(VERIF_ACKQ_N='3000', VERIF_ACKQ_DEPTH='6')))],
+        rule='histories of Wait/Ack/Acked on real ack queues of initial capacity 1..16: exhaustively all operation sequences of depth 4 '
+             '(quick) / 6 (thorough) over 3 identifiers (register, PUBREC, PUBREL, collect, ping), plus random histories with up to '
+             'hundreds of in-flight entries (growth while wrapped). Non-trivial: an Acked() call handed an entry back.',
+        assumptions=['Ackq/Model.v is a hand-written model of sessions/ackqueue.go tied to the code by running the same histories (ackqdrv); '
+                     'a plain FIFO list in the harness is the specification-level oracle'],
+    ),
     'C06': dict(
         coq='Properties/C06.v',
         drivers=[dict(name='topicsdrv', nontrivial=topics_nontrivial,
